@@ -1,4 +1,6 @@
 import LibInj.Xss.IsXSS
+import LibInj.Proofs.XssLift
+import LibInj.Proofs.SchemeEnc
 set_option linter.unusedSimpArgs false
 /-! # C04 — canonical XSS vectors are detected in every HTML injection context
 
@@ -10,11 +12,23 @@ junk and with NUL/LF inside; the markup forms of the grammar are reported by `is
 (kernel-evaluated). A deleted or mistyped list entry, or a classifier that loses a spelling, breaks
 these theorems without any test input having to hit it.
 
-Not yet a theorem: the tokenizer lemmas that carry an arbitrary member of the grammar (any
-breakout prefix, any separator run) to these classifier facts — `xss_grammar_detected_statement`;
-the grammar is enumerated exhaustively to its bound on the implementation and on the model. -/
+**Proved for every input of these shapes (the tokenizer side, `Proofs/XssLift`):**
+
+* `black_element_detected` — after any `<`-free text, `<name` followed by a byte that ends the name
+  (white space, `/`, `>`) or by end of input, then by **anything**, is reported, for every name that
+  is a case re-spelling of a listed element;
+* `event_handler_detected_*`, `style_detected_*` — `name = value` with `name` a case re-spelling of
+  `on<event>` for a listed event (or `style`/`filter`-class names the classifier rates 3), any blanks
+  around `=`, and **any** value (quoted, back-quoted or bare) followed by anything, is reported: in
+  the tag context itself, on any element in element content, and after breaking out of a single-,
+  double- or back-quoted value;
+* `script_url_detected_*` — a URL-bearing attribute with a quoted value that, after leading control
+  bytes, spells a script-capable scheme through any mix of encodings (C19's `Enc`) is reported.
+
+Not theorems: NUL bytes inside names at tokenizer level (classifier level: C11), `/` as attribute
+separator, unquoted URL values, the markup forms for arbitrary content — enumerated by the oracle. -/
 namespace LibInj.Properties.C04
-open LibInj LibInj.Xss
+open LibInj LibInj.Xss LibInj.H5
 
 def lowerB (s : Bytes) : Bytes := s.map lowerAscii
 def altB : Bytes → Bytes
@@ -59,9 +73,102 @@ def markupForms : List Bytes :=
 
 theorem markup_forms_detected : markupForms.all (fun s => isOkTrue (isXSS s)) = true := by decide +kernel
 
-def xss_grammar_detected_statement : Prop :=
-  ∀ (prefix_ : Bytes) (t : Bytes), t ∈ Gen.blackTags → (60 : UInt8) ∉ prefix_ →
-    isXSS (prefix_ ++ [60] ++ t ++ [62]) = .ok true
+theorem isBlackTag_caseEq (s s' : Bytes) (h : CaseEq s s') : isBlackTag s = isBlackTag s' := by
+  unfold isBlackTag
+  rw [CaseEq.length h, goUpper_case_invariant _ _ (stripNul_caseEq s s' h)]
+
+theorem isBlackAttr_caseEq (s s' : Bytes) (h : CaseEq s s') : isBlackAttr s = isBlackAttr s' := by
+  unfold isBlackAttr
+  rw [goUpper_case_invariant _ _ (stripNul_caseEq s s' h)]
+
+theorem isXSS_of_ctx0 (s : Bytes) (h : isXSSCtx s 0 = .ok true) : isXSS s = .ok true := by
+  unfold isXSS; simp [h, bind, Except.bind, pure, Except.pure]
+theorem isXSS_of_ctx (s : Bytes) (c : Nat) (hc : c < 5) (h : isXSSCtx s c = .ok true) : isXSS s = .ok true := by
+  obtain ⟨b0, h0⟩ := isXSSCtx_total s 0
+  obtain ⟨b1, h1⟩ := isXSSCtx_total s 1
+  obtain ⟨b2, h2⟩ := isXSSCtx_total s 2
+  obtain ⟨b3, h3⟩ := isXSSCtx_total s 3
+  obtain ⟨b4, h4⟩ := isXSSCtx_total s 4
+  unfold isXSS
+  simp only [h0, h1, h2, h3, h4, bind, Except.bind, pure, Except.pure]
+  match c, hc with
+  | 0, _ => rw [h] at h0; cases h0; simp
+  | 1, _ => rw [h] at h1; cases h1; cases b0 <;> simp
+  | 2, _ => rw [h] at h2; cases h2; cases b0 <;> cases b1 <;> simp
+  | 3, _ => rw [h] at h3; cases h3; cases b0 <;> cases b1 <;> cases b2 <;> simp
+  | 4, _ => rw [h] at h4; cases h4; cases b0 <;> cases b1 <;> cases b2 <;> cases b3 <;> simp
+
+/-- a listed element is classified as dangerous (from `black_tags_all_spellings`) -/
+theorem listed_tag_black (t : Bytes) (ht : t ∈ Gen.blackTags) : isBlackTag t = true := by
+  have := List.all_eq_true.mp black_tags_all_spellings t ht
+  simp only [spellings, List.all_cons, Bool.and_eq_true] at this
+  exact this.1
+
+/-- **C04, elements.** Any case re-spelling of a listed element, after any `<`-free text and before
+any text, is reported as XSS. -/
+theorem black_element_detected (t name p rest : Bytes) (ht : t ∈ Gen.blackTags) (hcase : CaseEq name t)
+    (hp : (60 : UInt8) ∉ p) (hn : NameAt name rest) : isXSS (p ++ 60 :: (name ++ rest)) = .ok true := by
+  apply isXSS_of_ctx0
+  apply black_tag_in_content p name rest hp hn
+  rw [isBlackTag_caseEq name t hcase]; exact listed_tag_black t ht
+
+/-- every listed event has the black class 1 -/
+theorem events_class_one : Gen.blackEvents.all (fun e => e.2 == 1) = true := by decide +kernel
+
+theorem listed_event_black (e : Bytes × Nat) (he : e ∈ Gen.blackEvents) (name : Bytes) (hcase : CaseEq name (ON ++ e.1)) :
+    isBlackAttr name = 1 := by
+  have h1 := List.all_eq_true.mp black_events_all_spellings e he
+  have h2 := List.all_eq_true.mp events_class_one e he
+  simp only [spellings, List.all_cons, Bool.and_eq_true, beq_iff_eq] at h1 h2
+  rw [isBlackAttr_caseEq name _ hcase, h1.1.1, h2]
+
+/-- **C04, event handlers** in the tag context (`x onerror=…`, `<a x onerror=…`) -/
+theorem event_handler_detected_in_tag (e : Bytes × Nat) (he : e ∈ Gen.blackEvents) (name ws ws2 rest : Bytes) (c : UInt8)
+    (hcase : CaseEq name (ON ++ e.1)) (hws : ws.all isSkipWhite = true) (hws2 : ws2.all isSkipWhite = true)
+    (hc : isSkipWhite c = false) (hn : AttrAt name) : isXSS (ws ++ name ++ 61 :: (ws2 ++ c :: rest)) = .ok true :=
+  isXSS_of_ctx _ 1 (by omega) (black_attr_in_tag_context ws name ws2 rest c hws hws2 hc hn (Or.inl (listed_event_black e he name hcase)))
+
+/-- … on any element in element content -/
+theorem event_handler_detected_in_element (e : Bytes × Nat) (he : e ∈ Gen.blackEvents) (p tag name ws ws2 rest : Bytes) (w c : UInt8)
+    (hcase : CaseEq name (ON ++ e.1)) (hp : (60 : UInt8) ∉ p)
+    (hn : NameAt tag (w :: (ws ++ name ++ 61 :: (ws2 ++ c :: rest)))) (hw : isH5White w = true)
+    (hws : ws.all isSkipWhite = true) (hws2 : ws2.all isSkipWhite = true) (hc : isSkipWhite c = false) (ha : AttrAt name) :
+    isXSS (p ++ 60 :: (tag ++ w :: (ws ++ name ++ 61 :: (ws2 ++ c :: rest)))) = .ok true :=
+  isXSS_of_ctx0 _ (black_attr_in_element p tag ws name ws2 rest w c hp hn hw hws hws2 hc ha (Or.inl (listed_event_black e he name hcase)))
+
+/-- … after breaking out of a quoted attribute value (`'`, `"`, back-tick) -/
+theorem event_handler_detected_after_breakout (e : Bytes × Nat) (he : e ∈ Gen.blackEvents) (q : UInt8)
+    (hq : q = 39 ∨ q = 34 ∨ q = 96) (u name ws ws2 rest : Bytes) (w c : UInt8) (hcase : CaseEq name (ON ++ e.1))
+    (hu : q ∉ u) (hw : isH5White w = true) (hws : ws.all isSkipWhite = true) (hws2 : ws2.all isSkipWhite = true)
+    (hc : isSkipWhite c = false) (hn : AttrAt name) :
+    isXSS (u ++ q :: w :: (ws ++ name ++ 61 :: (ws2 ++ c :: rest))) = .ok true := by
+  have hb := Or.inl (b := isBlackAttr name = 3) (listed_event_black e he name hcase)
+  rcases hq with rfl | rfl | rfl
+  · exact isXSS_of_ctx _ 2 (by omega) (black_attr_after_breakout 2 39 (Or.inl ⟨rfl, rfl⟩) u ws name ws2 rest w c hu hw hws hws2 hc hn hb)
+  · exact isXSS_of_ctx _ 3 (by omega) (black_attr_after_breakout 3 34 (Or.inr (Or.inl ⟨rfl, rfl⟩)) u ws name ws2 rest w c hu hw hws hws2 hc hn hb)
+  · exact isXSS_of_ctx _ 4 (by omega) (black_attr_after_breakout 4 96 (Or.inr (Or.inr ⟨rfl, rfl⟩)) u ws name ws2 rest w c hu hw hws hws2 hc hn hb)
+
+/-- **C04, `style`-class attributes** (the classifier's class 3), same three situations; here in the tag context -/
+theorem style_detected_in_tag (name ws ws2 rest : Bytes) (c : UInt8) (h3 : isBlackAttr name = 3)
+    (hws : ws.all isSkipWhite = true) (hws2 : ws2.all isSkipWhite = true) (hc : isSkipWhite c = false) (hn : AttrAt name) :
+    isXSS (ws ++ name ++ 61 :: (ws2 ++ c :: rest)) = .ok true :=
+  isXSS_of_ctx _ 1 (by omega) (black_attr_in_tag_context ws name ws2 rest c hws hws2 hc hn (Or.inr h3))
+
+/-- **C04 with C19, script URLs**: a URL-bearing attribute (class 2) on any element in element
+content whose quoted value, after leading control bytes, spells a script-capable scheme through any
+mix of encodings -/
+theorem script_url_detected_in_element (p tag name ws ws2 junk enc rest sc : Bytes) (w q : UInt8)
+    (hq : q = 34 ∨ q = 39 ∨ q = 96) (hp : (60 : UInt8) ∉ p)
+    (hn : NameAt tag (w :: (ws ++ name ++ 61 :: (ws2 ++ q :: ((junk ++ enc) ++ q :: rest))))) (hw : isH5White w = true)
+    (hws : ws.all isSkipWhite = true) (hws2 : ws2.all isSkipWhite = true) (hu : q ∉ junk ++ enc) (ha : AttrAt name)
+    (h2 : isBlackAttr name = 2) (hj : ∀ c ∈ junk, urlJunk c = true) (hsc : sc ∈ urls) (henc : Enc sc enc) :
+    isXSS (p ++ 60 :: (tag ++ w :: (ws ++ name ++ 61 :: (ws2 ++ q :: ((junk ++ enc) ++ q :: rest))))) = .ok true :=
+  isXSS_of_ctx0 _ (url_attr_in_element p tag ws name ws2 (junk ++ enc) rest w q hq hp hn hw hws hws2 hu ha h2
+    (scheme_enc_detected junk enc sc hj hsc henc))
+
+/-- non-vacuity: `href` is a URL-bearing attribute, `onerror` an event handler, `style` class 3 -/
+example : isBlackAttr [104, 114, 101, 102] = 2 ∧ isBlackAttr [111, 110, 101, 114, 114, 111, 114] = 1 ∧
+    isBlackAttr [115, 116, 121, 108, 101] = 3 := by decide +kernel
 
 example : isBlackTag [115, 0, 99, 114, 105, 112, 116] = true := by decide +kernel
 
